@@ -1325,6 +1325,10 @@ fn gen_recv_script(rng: &mut Rng, cfg: &RecvCfg, file: &[u8], closure: bool, ck:
                 0 => events.push("recv cancel".into()),
                 1 => {
                     events.push("recv suspend".into());
+                    if rng.chance(1, 2) {
+                        // a PDU that was in flight arrives while suspended
+                        events.push(ev.clone());
+                    }
                     events.push(format!("recv adv {}", rng.pick(&[0u64, 500, 3000, 20000])));
                     events.push("recv timeout".into());
                     events.push("recv send".into());
